@@ -6,12 +6,12 @@ def run(ctx):
     q = ctx.tier == "quick"
     ctx.rule = ("RateLimit.tla: one shared post-paid token bucket per direction, discrete clock, windows starting anywhere "
                 "(RateBound = burst + R x dt + one I/O chunk per connection; per-connection limiter, ignored wait and a wait that gives up violate it). "
-                "The module exports every (read-limit, write-limit in {0,4,8} MiB/s, 1-3 connections, upload/download, plain/tunnel) and a crowd of 64 connections on a 1 MiB/s listener (backlog seconds deep) "
+                "The module exports every (read-limit, write-limit in {0,4,8} MiB/s, 1-3 connections, upload/download, plain/tunnel) and a crowd of 64 connections on a 1 MiB/s listener (backlog seconds deep) and a churn of short-lived connections (48 KiB each, 4 workers; charging in batches and forgetting the rest violates RateBound in the model) "
                 "configuration; each moves 12 MiB through a real listener, is sampled downstream of the limiter and the samples are "
                 "validated by TLC (RateLimitTrace) against the limiter's own burst; durations are only bounded from below, the "
                 "unlimited direction from above by half of what the other limit would allow; digests must match. Non-trivial = all.")
     ctx.mc("RateLimit.tla", "MC_RateLimit.cfg")
-    for m in ("MC_RateLimit_PerConn.cfg", "MC_RateLimit_NoWait.cfg", "MC_RateLimit_MaxWait.cfg"):
+    for m in ("MC_RateLimit_PerConn.cfg", "MC_RateLimit_NoWait.cfg", "MC_RateLimit_MaxWait.cfg", "MC_RateLimit_Batch.cfg"):
         ok, _, _, _ = ctx.mc("RateLimit.tla", m, expect_ok=False)
         if ok:
             raise vlib.Infra("RateLimit mutant %s not detected by the model" % m)
@@ -20,16 +20,18 @@ def run(ctx):
     cases = [r for r in recs if "c" in r]
     if q:
         # every limit pair at least once, both directions and kinds
-        crowd = [r for r in cases if r["c"]["conns"] > 3 and r["exp"]["limited"]]
-        cases = vlib.sample_list(ctx.rng, [r for r in cases if r["c"]["conns"] <= 3], 14)
+        crowd = [r for r in cases if r["c"]["conns"] > 4 and r["exp"]["limited"]]
+        churn = [r for r in cases if r["c"].get("churn") and r["exp"]["limited"]]
+        cases = vlib.sample_list(ctx.rng, [r for r in cases if r["c"]["conns"] <= 3], 12)
         cases += ([r for r in crowd if r["c"]["dir"] == "download"][:1] + [r for r in crowd if r["c"]["dir"] == "upload"][-1:])
+        cases += ([r for r in churn if r["c"]["dir"] == "download"][:1] + [r for r in churn if r["c"]["dir"] == "upload"][-1:])
     trace = os.path.join(ctx.work, "rate.ndjson")
     out = ctx.run_vh(binp, ["c20", "--arg", "trace=" + trace], cases=cases, timeout=3000)
     out, crashed = ctx.nocrash(out, "C20:crash")
     for r in out:
         ctx.evaluations += 1
         c = r["c"]
-        ctx.nontrivial.add("%s/%s/%s/%s/%s" % (c["read"], c["write"], c["conns"], c["dir"], c["kind"]))
+        ctx.nontrivial.add("%s/%s/%s/%s/%s/%s" % (c["read"], c["write"], c["conns"], c["dir"], c["kind"], c.get("churn")))
         if not r["ok"]:
             w = r["why"]
             k = ("too-fast" if "faster than" in w else "throttled-unlimited" if "unlimited" in w else "altered" if "altered" in w else "incomplete")
